@@ -11,7 +11,7 @@
     cancels ctx ([ACancel], at any position). *)
 From Coq Require Import List Arith Bool.
 Import ListNotations.
-From Wharf Require Import Heal.Protocol Heal.ProtocolProofs Heal.ProtocolSafety.
+From Wharf Require Import Heal.Protocol Heal.ProtocolProofs Heal.ProtocolSafety Heal.ProtocolClean.
 
 (** Validation returns: every execution has at most [measure (init p)] steps (so every maximal
     execution is finite), and a reachable state in which Validate has not returned always has
@@ -76,6 +76,17 @@ Theorem no_false_valid_unfixed_mid_refuted :
             s_main s = MRet /\ s_ret s = RNil /\ clean witness_mid = false.
 Proof. exact no_false_valid_unfixed_mid_refuted_lemma. Qed.
 Print Assumptions no_false_valid_unfixed_mid_refuted.
+
+(** The converse direction, for the correspondence's outcome sets: a clean directory validated
+    fail-fast with a context that is never cancelled (worker pool opens and closes) returns
+    nil under every schedule - errors on a valid directory need an interruption. *)
+Theorem clean_uninterrupted_nil :
+  forall (p : params) (acts : list action) (s : state),
+    p_cons p = guardian -> p_closefail p = false -> p_startfail p = false -> p_ctx0 p = false ->
+    clean p = true -> ~ In ACancel acts ->
+    run p acts (init p) = Some s -> s_main s = MRet -> s_ret s = RNil.
+Proof. exact clean_uninterrupted_nil_lemma. Qed.
+Print Assumptions clean_uninterrupted_nil.
 
 (** non-vacuity: a damaged directory (3 dir wounds with a channel of capacity 1, a file with a
     bad block) validated fail-fast under a concrete schedule reaches MRet with an error, and a
